@@ -19,7 +19,7 @@ EXPLANATION = (
     "is statement-scoped: every PrintState field a per-item operation modifies is written again by "
     "reset() or print_end(); (R6) the implicit numeric conversions test the range of the rounded value "
     "they convert, so no value that rounds into range ends the program with a spurious Overflow "
-    "(shared with C06.R7).")
+    "(shared with C06.R7); (R7) a variable or array element that was never assigned starts as the zero / empty value of its declared type (shared with C04.R4).")
 NOT_DECIDED = ["agreement of printed output with the reference semantics for every program and value"]
 
 # operator name -> Ordering values for which the comparison holds
@@ -360,3 +360,6 @@ def run(ctx):
     c06.r2_store_routes(ctx, "C01.R4")
     r5_print_state_is_statement_scoped(ctx)
     c06.r7_guard_tests_converted_value(ctx, "C01.R6")
+    # a variable that was never assigned prints and computes as the zero of its declared type
+    from . import c04
+    c04.r4_allocation(ctx, "C01.R7")
